@@ -77,6 +77,7 @@ type Frame struct {
 	pred    *ssa.BasicBlock
 	callIns ssa.Instruction // in the caller: the call this frame serves (nil for top)
 	depth   int
+	order   map[ssa.Value]int // allocation order of locals (for name resolution)
 	// loop entry snapshots for "old at loop entry" (unused for now)
 }
 
@@ -85,6 +86,10 @@ func (f *Frame) clone() *Frame {
 	nf.vals = make(map[ssa.Value]Val, len(f.vals)+8)
 	for k, v := range f.vals {
 		nf.vals[k] = v
+	}
+	nf.order = make(map[ssa.Value]int, len(f.order))
+	for k, v := range f.order {
+		nf.order[k] = v
 	}
 	nf.open = make(map[*Loop]bool, len(f.open))
 	for k, v := range f.open {
